@@ -25,6 +25,10 @@ def header(rng, ident, mode, delays, lazy=None, nd=6):
             kv.append("firstdelay=%d" % delays)
         if r in (1, 2):
             kv.append("window=%d" % rng.choice([0, delays, delays]))
+    if rng.chance(1, 5):
+        kv.append("backoff=%d" % rng.choice([5, 20]))
+    if rng.chance(1, 5):
+        kv.append("cmdbackoff=%d" % rng.choice([5, 20]))
     kv.append("dials=%s" % (",".join(rng.choice(DIALS) for _ in range(rng.below(nd))) or "-"))
     kv.append("conns=%s" % (",".join(rng.choice(CONNS) for _ in range(rng.below(nd))) or "-"))
     return kv
@@ -34,6 +38,8 @@ def seq_script(rng, ident, delays=0):
     """one environment operation at a time, each followed by quiescence: deterministic, compared with the model"""
     kv = header(rng, ident, "seq", delays)
     st = "longsettle/%d" % (delays + 90) if delays else "settle"
+    if not delays and any(x.startswith("backoff=") or x.startswith("cmdbackoff=") for x in kv):
+        st = "longsettle/45"
     s = [st]
     nid = 0
     for _ in range(1 + rng.below(6)):
@@ -131,4 +137,16 @@ def shutdown_sweep(ident, pos, delays=0):
     if delays:
         kv.append("firstdelay=%d" % delays)
     s = ["cmd/1/ok/0/nowait", "force/2/nowait", "waitev//%d" % pos, "shutdown", "longsettle/%d" % (delays + 120), "awaitall", "settle"]
+    return " ".join(kv) + " script=" + ";".join(s)
+
+
+def env_sweep(ident, pos, what, delays=0):
+    """a disconnection / forced reconnect / fast-forward after the pos-th event of a busy history"""
+    kv = ["conn", ident, "mode=conc", "lazy=1", "dials=fail,ok,fail,ok,ok", "conns=fail,ok,ok"]
+    if delays:
+        kv.append("firstdelay=%d" % delays)
+        kv.append("window=%d" % delays)
+    s = ["cmd/1/eofdisc,ok/%d/nowait" % (1 if delays else 0), "force/2/nowait", "cmd/3/retriable,ok/0/nowait", "waitev//%d" % pos]
+    s += {"disconnect": ["disconnect"], "force": ["force/9/nowait"], "fastforward": ["fastforward"], "cancel": ["cancelcmd/3"]}[what]
+    s += ["longsettle/%d" % (delays + 120) if delays else "settle", "awaitall", "settle"]
     return " ".join(kv) + " script=" + ";".join(s)
